@@ -232,9 +232,10 @@ class Policy:
         for rule in rules:
             if not self.has_policy(sec, ptype, rule):
                 return False
-            self[sec][ptype].policy.remove(rule)
+
+        for rule in rules:
             if rule in self[sec][ptype].policy:
-                return False
+                self[sec][ptype].policy.remove(rule)
 
         return True
 
